@@ -789,6 +789,35 @@ def small_shapes(nmax):
     return shapes
 
 
+def nested_both_cases():
+    """Four leaves whose top-level operands are BOTH chains (`a && b || c && d`, `(a || b) && (c || d)`, word operators):
+    only the outermost chain is checked for the exit code of the last command that ran - with no plain command among its
+    operands.  Every assignment of exit codes {0, 1} x both lexical classes of leaf x 4 flag settings."""
+    import copy
+
+    def N(t, sym, *c):
+        return {"t": t, "sym": sym, "c": list(c)}
+
+    def G(c):
+        return {"t": "grp", "c": c}
+
+    builders = [
+        ("a&&b||c&&d", lambda a, b, c, d: N("or", True, N("and", True, a, b), N("and", True, c, d))),
+        ("a and b or c and d", lambda a, b, c, d: N("or", False, N("and", False, a, b), N("and", False, c, d))),
+        ("(a||b)&&(c||d)", lambda a, b, c, d: N("and", True, G(N("or", True, a, b)), G(N("or", True, c, d)))),
+        ("(a&&b)||(c&&d)", lambda a, b, c, d: N("or", True, G(N("and", True, a, b)), G(N("and", True, c, d)))),
+    ]
+    for name, build in builders:
+        for cls in ("np", "py"):
+            for codes in itertools.product((0, 1), repeat=4):
+                for R in (True, False):
+                    for C in (False, True):
+                        leaves = [{"t": "leaf", "form": "bare", "cls": cls, "pfx": 0, "inner": None, "wrap": "bare",
+                                   "stages": [{"code": c, "deco": None, "ext": False, "emit": False, "sf": None}]} for c in codes]
+                        yield name, {"flags": [R, C], "kind": "expr", "tree": build(*copy.deepcopy(leaves)), "after": ["py"],
+                                     "exit": None, "tier": "inproc"}
+
+
 def exhaustive_cases(nmax):
     import copy
 
@@ -834,7 +863,7 @@ def worker_exhaustive(arg):
     shard, nshards, nmax, scratch = arg
     _setup(scratch, quiet_fd2=True)
     st = Stats()
-    for i, (name, case) in enumerate(exhaustive_cases(nmax)):
+    for i, (name, case) in enumerate(itertools.chain(exhaustive_cases(nmax), nested_both_cases())):
         if i % nshards != shard:
             continue
         f, status = check_case(case)
@@ -1220,9 +1249,9 @@ def main(run):
     _state["pscratch"] = run.scratch
     common.replay_tier(run, _replay_case)
     _warm_child(run)
-    nw = max(1, min(16, int(os.environ.get("VERIF_PROCS") or 16)))
+    nw = 16          # number of generator streams: fixed, so that a seed means the same cases at any VERIF_PROCS
     nmax = run.n(2, 3)
-    common.pool_map(run, __name__, "worker_exhaustive", [(i, nw, nmax, run.scratch) for i in range(nw)], procs=nw)
+    common.pool_map(run, __name__, "worker_exhaustive", [(i, nw, nmax, run.scratch) for i in range(nw)])
     run.extra["exhaustive_subspace"] = (
         "expression statements over <= %d single-stage leaves: shapes %s x leaf variants (5 forms x code {0,1} x 2 "
         "lexical classes; @$() argument with outer/inner failure x 2 classes; command not found in bare(2 classes)/$()/"
@@ -1231,10 +1260,10 @@ def main(run):
                                    len(leaf_variants(False))))
     per = run.n(4800, 160000) // nw
     common.pool_map(run, __name__, "worker_random",
-                    [(common.worker_seed(run.seed, w), per, run.scratch) for w in range(nw)], procs=nw)
+                    [(common.worker_seed(run.seed, w), per, run.scratch) for w in range(nw)])
     pper = max(1, run.n(24, 320) // nw)
     common.pool_map(run, __name__, "worker_process",
-                    [(common.worker_seed(run.seed, 200 + w), pper, run.scratch) for w in range(nw)], procs=nw)
+                    [(common.worker_seed(run.seed, 200 + w), pper, run.scratch) for w in range(nw)])
     missing = [lab for lab in (["form:" + f for f in FORMS] + ["kind:" + k for k in KINDS] +
                                ["flags:R%dC%d" % (r, c) for r in (0, 1) for c in (0, 1)] +
                                ["class:py", "class:np", "deco:raise", "deco:ignore", "stages:2", "stages:3",
